@@ -20,7 +20,7 @@ RULE = (
 	'and model); nodes with arbitrary key / chain code; a malformed stream (indices in [2^31, 2^32), >= 2^32, negative); mnemonics and '
 	'passphrases as opaque strings (vector mnemonics, random ASCII, NFKD-sensitive Unicode for the direct check); facade paths over network '
 	'names x boundary account ids; node -> key pair on random keys and on every account of tests/vectors/*/crypto/6.test-hd-derivation.json; '
-	'BufferWriter.write_int over both byte orders incl. overflow; histories of calls on shared objects for both facades (one node converted twice, converted then derived further vs the full path, two paths from one node in both orders, several accounts converted and the first converted again, roots of two curves interleaved, random mixes), where every argument object (node, path list, seed buffer) is compared with its snapshot after every call. A case is distinct by its (operation, arguments); non-trivial = it reached '
+	'BufferWriter.write_int over both byte orders incl. overflow; long paths (200, 600, 1100, 1500 elements; 2500 and 5000 in the thorough tier) on both shipped curves given as list / tuple / generator / range, compared with the fold of derive_one, with random splits and with chunks of 50, on the implementation and on the model; histories of calls on shared objects for both facades (one node converted twice, converted then derived further vs the full path, two paths from one node in both orders, several accounts converted and the first converted again, roots of two curves interleaved, random mixes), where every argument object (node, path list, seed buffer) is compared with its snapshot after every call. A case is distinct by its (operation, arguments); non-trivial = it reached '
 	'the implementation and (when the driver runs) the model.')
 TRUSTED_BASE = [
 	'Lean 4.33 kernel; axioms of the property theorems: subset of {propext, Classical.choice, Quot.sound}',
@@ -396,6 +396,10 @@ def make_node(modules, key, chain):
 	return node
 
 
+def _node_bytes(node):
+	return bytes(node.private_key.bytes), bytes(node.chain_code)
+
+
 def impl_node(result):
 	if 'ok' != result[0]:
 		return 'none'
@@ -530,6 +534,56 @@ def evaluate(modules, case):
 		operation_name = 'account_raw' if raw else 'account'
 		out.request(f'{operation_name} {facade_name} {hx(seed)} {path_text(path)}', f'ok {hx(secret)} {hx(public)} {hx(shown)}')
 		out.branches.append(f'account:{facade_name}:' + ('raw' if raw else 'facade'))
+	elif 'long' == operation:
+		# a long path (regenerated from its own seed, so that the case stays small), given as list / tuple / generator / range
+		import random
+		curve, seed, length, container = case['curve'], bytes.fromhex(case['seed']), case['length'], case['container']
+		if 'range' == container:
+			path = list(range(case['path_seed'] % (1 << 30), case['path_seed'] % (1 << 30) + length))
+		else:
+			generator = random.Random(case['path_seed'])
+			path = [generator.randrange(1 << 31) if generator.random() < 0.8 else generator.choice([0, 1, 44, 4343, (1 << 31) - 1]) for _ in range(length)]
+
+		def given():
+			if 'tuple' == container:
+				return tuple(path)
+			if 'generator' == container:
+				return (index for index in path)
+			if 'range' == container:
+				return range(path[0], path[0] + length) if path else range(0)
+			return list(path)
+
+		def run_whole():
+			try:
+				return node_text(_node_bytes(modules['Bip32'](curve).from_seed(seed).derive_path(given())))
+			except Exception as ex:  # pylint: disable=broad-except
+				return f'none ({type(ex).__name__})'
+
+		expected = node_text(spec_path(spec_root(curve, seed), path))
+		whole = run_whole()
+		out.require(
+			whole == expected,
+			f'derive_path of a {length}-element path given as {container} (path_seed {case["path_seed"]}) is {whole[:60]}, expected the fold of derive_one over it: {expected[:60]}')
+		stepwise = modules['Bip32'](curve).from_seed(seed)
+		for index in path:
+			stepwise = stepwise.derive_one(index)
+		out.require(node_text(_node_bytes(stepwise)) == expected, f'derive_one folded over a {length}-element path != chain of SLIP-10 hardened children')
+		for split in case['splits']:
+			split = min(split, length)
+			try:
+				two_step = node_text(_node_bytes(modules['Bip32'](curve).from_seed(seed).derive_path(path[:split]).derive_path(path[split:])))
+			except Exception as ex:  # pylint: disable=broad-except
+				two_step = f'none ({type(ex).__name__})'
+			out.require(two_step == whole, f'derive_path of a {length}-element path ({whole[:40]}) != derive_path of its first {split} then of the remaining {length - split} elements ({two_step[:40]})')
+		chunked = modules['Bip32'](curve).from_seed(seed)
+		for start in range(0, length, 50):
+			chunked = chunked.derive_path(path[start:start + 50])
+		out.require(node_text(_node_bytes(chunked)) == whole, f'derive_path of a {length}-element path != derive_path over its chunks of 50 in sequence')
+		out.request(f'derive_path {sx(curve)} {hx(seed)} {path_text(path)}', whole if whole.startswith('ok ') else 'none')
+		if case['splits']:
+			split = min(case['splits'][0], length)
+			out.request(f'derive_split {sx(curve)} {hx(seed)} {path_text(path[:split])} {path_text(path[split:])}', whole if whole.startswith('ok ') else 'none')
+		out.branches.append(f'long:{length}:{container}')
 	elif 'history' == operation:
 		# several calls on shared objects: every result is compared with the oracle evaluated on the values the objects *should*
 		# hold, and after every call all argument objects (nodes, path lists) are compared with their snapshots
@@ -749,6 +803,20 @@ def generate(ctx, vectors):
 			cases.append({
 				'op': 'account', 'facade': facade_name, 'seed': gen_seed(rng, vector_seeds).hex().upper(), 'path': [44, coin, account, 0, 0],
 				'raw': False})
+
+	# long paths (any length; iterables other than lists), both shipped curves
+	lengths = [200, 600, 1100, 1500] + ([2500, 5000] if ctx.thorough else [])
+	for length in lengths:
+		for curve in ('ed25519', 'ed25519-keccak'):
+			for container in (['list', rng.choice(['tuple', 'generator', 'range'])] if not ctx.thorough else ['list', 'tuple', 'generator', 'range']):
+				cases.append({
+					'op': 'long', 'curve': curve, 'seed': gen_seed(rng, vector_seeds).hex().upper(), 'length': length, 'container': container,
+					'path_seed': rng.randrange(1 << 32), 'splits': sorted(rng.randrange(length + 1) for _ in range(3)) + [length // 2]})
+	for container in ('list', 'tuple', 'generator', 'range'):
+		for length in (0, 1, 5, 13):
+			cases.append({
+				'op': 'long', 'curve': rng.choice(['ed25519', 'ed25519-keccak']), 'seed': gen_seed(rng, vector_seeds).hex().upper(), 'length': length,
+				'container': container, 'path_seed': rng.randrange(1 << 32), 'splits': [rng.randrange(length + 1)]})
 
 	# histories on shared objects (argument immutability, re-use)
 	for facade_name in ('symbol', 'nem'):
